@@ -528,7 +528,8 @@ class Job:
                 self._statepoint_requires_init = False
             self.statepoint.reset(new_statepoint)
 
-        self._project._register(self.id, new_statepoint)
+        # Register what this job holds now (a copy), not the caller's object.
+        self._project._register(self.id, self.statepoint())
 
     @property
     def sp(self):
